@@ -106,10 +106,18 @@ fn gen(rng: &mut Rng, tier: Tier) -> Vec<Case> {
         if probe.0 >= probe.1 { continue; }
         out.push(Case::new(if small { "boundary" } else { "random" }, enc(&C { h, qs, probe })));
     }
+    if tier == Tier::Thorough {
+        // LARGE sets (see lap::gen_large_hist): above every power-of-two threshold up to 2^16, seam-bridging intervals
+        for &n in LARGE_SIZES {
+            let (h, pts) = gen_large_hist(rng, n, 0);
+            let qs = large_queries(rng, &pts, n, 40);
+            out.push(Case::new("large", push_flavour(enc(&C { h, qs, probe: (77, 10_000, 4242) }), large_ltype(rng))));
+        }
+    }
     // coordinate-type flavours: every generated (non-exhaustive) case is, half of the time, run over another instantiation of
     // `Lapper<I, _>`; for the narrow types a far-away interval is added so that the set spans more than half of the type's range
     for c in out.iter_mut() {
-        if c.stream == "exhaustive" { continue; }
+        if c.stream == "exhaustive" || c.stream == "large" { continue; }
         let ty = gen_ltype(rng);
         if ty == 0 { continue; }
         if let Some(mut d) = dec(&c.input) { if rng.chance(1, 2) { spread_for_type(rng, &mut d.h, ty, false); } c.input = push_flavour(enc(&d), ty); }
